@@ -5,35 +5,46 @@
    (workflows/model_database/local_directory.py, contexts/local_directory.py,
    contexts/baseclass.py:_store_model), with
 
-     Crash    process death between any two of them: volatile state is lost,
-              the file that is open for writing becomes empty / torn / complete,
-              locks vanish;
+     Crash    death of one process between any two of them: its volatile state
+              is lost, the file it has open for writing becomes empty / torn /
+              complete, its locks vanish;
      Restart  fresh LocalDirectoryContext (its constructor re-runs the
               "create what is missing" steps of Open).
+
+   Proc = {1}: one process at a time (quick tier, case emission, conformance).
+   Proc = {1, 2}: two concurrent writer/reader processes; the database-wide path
+   lock, the annotations lock and the log lock are actions with guards
+   (exclusion itself is property C15).
 
    Models m1, m2 share dataset d1, m3 has d2 (same columns, so the stored
    datainfo compares equal - as in the driver's models).
 
+   The DEFAULT (Legacy = {}) is the code as it is now, i.e. after the repairs
+   C16-F1 (index file touched last; a hash directory without index is a miss),
+   C16-F4 (annotations written to a temporary file that is renamed over the old
+   one) and C16-F5 (log.csv created with its header via temporary file + rename).
+   The behaviour before the repairs is kept as named alternatives
+   (Legacy \subseteq {"IndexFirst", "InPlaceAnn", "InPlaceLogHeader"},
+   ModelDBLegacy.cfg) for the record: TLC still produces the historic
+   counterexamples of findings F1, F2, F4, F5 there.
+
    The ghost variable S is the abstract state of the property layer
    (ModelDBAbs.tla); the invariants Inv* say that what a reader WOULD obtain in
-   every quiescent state is admitted by the property layer.  On the protocol AS
-   WRITTEN some of them are violated (see ModelDBProps.cfg and notes/C16.md);
-   those counterexamples are design-level findings which the driver re-enacts
+   every quiescent state is admitted by the property layer.  Those that hold
+   for the default are asserted in ModelDB.cfg; the others (InvD, InvName,
+   InvNameNoCrash, InvLog: findings F3, F7, F6) are checked in separate runs,
+   their counterexamples are design-level findings which the driver re-enacts
    on the real code.                                                         *)
 EXTENDS ModelDBAbs, Json
 
-CONSTANTS Names, Ops, MaxOps, MaxCrashes, MaxN, TrackHist,
-          Fix   \* {} = the protocol as written; proposed repairs (proposed_fixes/C16-*.diff), checked in ModelDBFixed.cfg:
-                \*   "IndexLast"  the index file is touched after csv and datainfo; a hash directory without index is a miss
-                \*   "AtomicAnn"  annotations are written to a temporary file that is renamed over the old one
-                \*   "LogHeader"  log.csv is created with its header in a temporary file that is renamed into place
+CONSTANTS Proc, Names, Ops, MaxOps, MaxCrashes, MaxN, TrackHist, Legacy
 
 VARIABLES fs,      \* the file tree (record of functions, see FS0)
-          proc,    \* "up" | "down"
-          cur,     \* running operation (record) or NoOp
-          pc,      \* label of the NEXT file-system operation of cur
-          vol,     \* volatile state of the process: data number, open file, lock
-          steps,   \* labels performed by cur so far (only if TrackHist)
+          proc,    \* [Proc -> "up" | "down"]
+          cur,     \* [Proc -> running operation (record) or NoOp]
+          pc,      \* [Proc -> label of the NEXT file-system operation of cur]
+          vol,     \* [Proc -> volatile state: data number, open file, lock held, ...]
+          steps,   \* [Proc -> labels performed by cur so far] (only if TrackHist)
           S,       \* ghost: abstract state of the property layer
           viol,    \* ghost: property letters of operation outcomes the property layer forbids
           hist,    \* finished operations [op, out, steps] (only if TrackHist)
@@ -44,7 +55,7 @@ vars == <<fs, proc, cur, pc, vol, steps, S, viol, hist, nops, ncrash>>
 Data == {DataOf[m] : m \in Model}
 NoOp == [op |-> "none"]
 OpenOp == [op |-> "Open"]
-Vol0 == [n |-> 0, openf |-> "none", held |-> "none", annnew |-> <<>>]
+Vol0 == [n |-> 0, openf |-> "none", held |-> "none", annnew |-> <<>>, absent |-> FALSE]
 
 FS0 == [keydir  |-> [m \in Model |-> FALSE],      \* <key>/ and <key>/.pharmpy
         pending |-> [m \in Model |-> FALSE],      \* <key>/.pharmpy/PENDING
@@ -60,8 +71,9 @@ FS0 == [keydir  |-> [m \in Model |-> FALSE],      \* <key>/ and <key>/.pharmpy
         loghdr  |-> "absent",                     \* log.csv: absent | empty | ok (header line written)
         loglines |-> <<>>]                        \* appended lines; "TORN" = a partial line
 
-Init == /\ fs = FS0 /\ proc = "up" /\ cur = OpenOp /\ pc = "InitDirs" /\ vol = Vol0
-        /\ steps = <<>> /\ S = AbsInit /\ viol = {} /\ hist = <<>> /\ nops = 0 /\ ncrash = 0
+Init == /\ fs = FS0 /\ proc = [p \in Proc |-> "up"] /\ cur = [p \in Proc |-> OpenOp]
+        /\ pc = [p \in Proc |-> "InitDirs"] /\ vol = [p \in Proc |-> Vol0]
+        /\ steps = [p \in Proc |-> <<>>] /\ S = AbsInit /\ viol = {} /\ hist = <<>> /\ nops = 0 /\ ncrash = 0
 
 -----------------------------------------------------------------------------
 \* what a reader with fresh objects would obtain from the current tree
@@ -102,206 +114,252 @@ WouldReadLog ==
     ELSE [out |-> "error:Parse", lines |-> <<>>]     \* no header line / partial line: pandas cannot return the log
 
 -----------------------------------------------------------------------------
-\* bookkeeping shared by all steps
+\* bookkeeping shared by all steps (p = the process that takes the step)
 
-Running(o, l) == proc = "up" /\ cur # NoOp /\ cur.op = o /\ pc = l
-Tick(l) == steps' = IF TrackHist THEN Append(steps, l) ELSE steps
+Running(p, o, l) == proc[p] = "up" /\ cur[p] # NoOp /\ cur[p].op = o /\ pc[p] = l
+Tick(p, l) == steps' = IF TrackHist THEN [steps EXCEPT ![p] = Append(@, l)] ELSE steps
 Same == UNCHANGED <<proc, cur, S, viol, hist, nops, ncrash>>
-Step(l, next) == Tick(l) /\ pc' = next /\ Same        \* fs' and vol' are given by the action
+Step(p, l, next) == Tick(p, l) /\ pc' = [pc EXCEPT ![p] = next] /\ Same        \* fs' and vol' are given by the action
+Vol(p, f, x) == vol' = [vol EXCEPT ![p][f] = x]
 
-StoreLetter(out) == StoreVerdict(S, cur.m, out)
-Finish(l, out) ==
-    /\ Tick(l)
-    /\ hist' = IF TrackHist THEN Append(hist, [op |-> cur, out |-> out, steps |-> steps']) ELSE hist
-    /\ cur' = NoOp /\ pc' = "idle" /\ vol' = Vol0
+Finish(p, l, out) ==
+    LET o == cur[p]
+        letter == StoreVerdict(S, o.m, out)
+    IN
+    /\ Tick(p, l)
+    /\ hist' = IF TrackHist THEN Append(hist, [op |-> o, out |-> out, steps |-> steps'[p]]) ELSE hist
+    /\ cur' = [cur EXCEPT ![p] = NoOp] /\ pc' = [pc EXCEPT ![p] = "idle"] /\ vol' = [vol EXCEPT ![p] = Vol0]
     /\ UNCHANGED <<proc, nops, ncrash>>
-    /\ CASE cur.op = "Store" -> /\ S' = StoreUpdate(S, cur.m, cur.n, cur.d, out)
-                                /\ viol' = IF StoreLetter(out) \in {"ok", "U"} THEN viol
-                                           ELSE viol \cup {<<StoreLetter(out), cur.m, out,
-                                                            \E x \in S.interrupted : DataOf[x] = DataOf[cur.m]>>}
-         [] cur.op = "Log" -> /\ S' = LogUpdate(S, cur.g, out)
-                              /\ viol' = IF LogVerdict(out) = "ok" THEN viol ELSE viol \cup {<<"L", "log", out>>}
+    /\ CASE o.op = "Store" -> /\ S' = StoreUpdate(S, o.m, o.n, o.d, out)
+                              /\ viol' = IF letter \in {"ok", "U"} THEN viol
+                                         ELSE viol \cup {<<letter, o.m, out,
+                                                          \E x \in S.interrupted : DataOf[x] = DataOf[o.m]>>}
+         [] o.op = "Log" -> /\ S' = LogUpdate(S, o.g, out)
+                            /\ viol' = IF LogVerdict(out) = "ok" THEN viol ELSE viol \cup {<<"L", "log", out, FALSE>>}
          [] OTHER -> UNCHANGED <<S, viol>>
+
+\* path locks (fcntl): guards only; a waiting process simply does not move
+NoOtherHolds(p, kinds) == \A q \in Proc \ {p} : vol[q].held \notin kinds
 
 -----------------------------------------------------------------------------
 \* Open: LocalDirectoryContext.__init__ (create what is missing)
 
-InitDirs == /\ Running("Open", "InitDirs")          \* mkdir ctx, subcontexts, .modeldb; touch annotations; mkdir models
-            /\ fs' = [fs EXCEPT !.ctxdirs = TRUE] /\ UNCHANGED vol
-            /\ Step("InitDirs", IF fs.loghdr = "absent" THEN "OpenLogHeader" ELSE "InitCommon")
-OpenLogHeader == /\ Running("Open", "OpenLogHeader")   \* open(log.csv, 'w') if it is not a file   (repaired: a temporary file)
-                 /\ IF "LogHeader" \in Fix THEN UNCHANGED <<fs, vol>>
-                    ELSE fs' = [fs EXCEPT !.loghdr = "empty"] /\ vol' = [vol EXCEPT !.openf = "loghdr"]
-                 /\ Step("OpenLogHeader", "WriteLogHeader")
-WriteLogHeader == /\ Running("Open", "WriteLogHeader")  \* close: "path,time,severity,message"   (repaired: + os.replace)
-                  /\ fs' = [fs EXCEPT !.loghdr = "ok"] /\ vol' = [vol EXCEPT !.openf = "none"]
-                  /\ Step("WriteLogHeader", "InitCommon")
-InitCommon == /\ Running("Open", "InitCommon")          \* common_options (not observed)
-              /\ UNCHANGED fs /\ Finish("InitCommon", "ok")
+InitDirs == \E p \in Proc :
+    /\ Running(p, "Open", "InitDirs")          \* mkdir ctx, subcontexts, .modeldb; touch annotations; mkdir models
+    /\ fs' = [fs EXCEPT !.ctxdirs = TRUE] /\ UNCHANGED vol
+    /\ Step(p, "InitDirs", IF fs.loghdr # "absent" THEN "InitCommon"
+                           ELSE IF "InPlaceLogHeader" \in Legacy THEN "OpenLogHeader" ELSE "OpenLogTmp")
+\* -- as it is now: header written to log.tmp, renamed to log.csv
+OpenLogTmp == \E p \in Proc :
+    /\ Running(p, "Open", "OpenLogTmp") /\ UNCHANGED fs /\ Vol(p, "openf", "tmp") /\ Step(p, "OpenLogTmp", "CloseLogTmp")
+CloseLogTmp == \E p \in Proc :
+    /\ Running(p, "Open", "CloseLogTmp") /\ UNCHANGED fs /\ Vol(p, "openf", "none") /\ Step(p, "CloseLogTmp", "RenameLog")
+RenameLog == \E p \in Proc :
+    /\ Running(p, "Open", "RenameLog")          \* tmp_path.replace(log_path): the file appears complete
+    \* (the is_file() test was made at InitDirs: a second constructor racing with the first replaces a log that may
+    \*  already hold lines - only reachable with two processes)
+    /\ fs' = [fs EXCEPT !.loghdr = "ok", !.loglines = <<>>] /\ UNCHANGED vol /\ Step(p, "RenameLog", "InitCommon")
+\* -- before repair C16-F5: open(log.csv, 'w'), then write the header
+OpenLogHeader == \E p \in Proc :
+    /\ Running(p, "Open", "OpenLogHeader")
+    /\ fs' = [fs EXCEPT !.loghdr = "empty", !.loglines = <<>>] /\ Vol(p, "openf", "loghdr") /\ Step(p, "OpenLogHeader", "WriteLogHeader")
+WriteLogHeader == \E p \in Proc :
+    /\ Running(p, "Open", "WriteLogHeader")
+    /\ fs' = [fs EXCEPT !.loghdr = "ok"] /\ Vol(p, "openf", "none") /\ Step(p, "WriteLogHeader", "InitCommon")
+InitCommon == \E p \in Proc :
+    /\ Running(p, "Open", "InitCommon")          \* common_options (not observed)
+    /\ UNCHANGED fs /\ Finish(p, "InitCommon", "ok")
 
 -----------------------------------------------------------------------------
 \* Store = Context.store_model_entry: transaction(store_model, store_modelfit_results, commit), store_key, store_annotation
 
-MkKeyDirs == /\ Running("Store", "MkKeyDirs")      \* destination.mkdir(parents=True, exist_ok=True)
-             /\ fs' = [fs EXCEPT !.keydir[cur.m] = TRUE] /\ UNCHANGED vol
-             /\ Step("MkKeyDirs", "TouchLock")
-TouchLock == /\ Running("Store", "TouchLock") /\ UNCHANGED <<fs, vol>> /\ Step("TouchLock", "LockEx")
-LockEx == /\ Running("Store", "LockEx") /\ UNCHANGED fs /\ vol' = [vol EXCEPT !.held = "ex"]
-          /\ Step("LockEx", "TouchPending")
-TouchPending ==
-    /\ Running("Store", "TouchPending")               \* path.touch(exist_ok=False)
-    /\ IF fs.pending[cur.m]
-       THEN UNCHANGED fs /\ Finish("TouchPending", "pending")     \* PendingTransactionError
-       ELSE /\ fs' = [fs EXCEPT !.pending[cur.m] = TRUE] /\ UNCHANGED vol
-            /\ Step("TouchPending",
-                    IF fs.mfile[cur.m].st # "absent" THEN "MkMetaDir"              \* model file exists: store_model returns
-                    ELSE IF fs.hdir[DataOf[cur.m]] /\ ~("IndexLast" \in Fix /\ fs.index[DataOf[cur.m]] = 0)
-                         THEN "ListHashDir" ELSE "MkHashDir")
-\* -- dataset known (hash directory exists)
-ListHashDir ==
-    /\ Running("Store", "ListHashDir")                \* next(h_dir.iterdir())
+MkKeyDirs == \E p \in Proc :
+    /\ Running(p, "Store", "MkKeyDirs")      \* destination.mkdir(parents=True, exist_ok=True)
+    /\ fs' = [fs EXCEPT !.keydir[cur[p].m] = TRUE] /\ UNCHANGED vol /\ Step(p, "MkKeyDirs", "TouchLock")
+TouchLock == \E p \in Proc : Running(p, "Store", "TouchLock") /\ UNCHANGED <<fs, vol>> /\ Step(p, "TouchLock", "LockEx")
+LockEx == \E p \in Proc :
+    /\ Running(p, "Store", "LockEx") /\ NoOtherHolds(p, {"ex", "sh"})
+    /\ UNCHANGED fs /\ Vol(p, "held", "ex") /\ Step(p, "LockEx", "TouchPending")
+TouchPending == \E p \in Proc : LET m == cur[p].m IN
+    /\ Running(p, "Store", "TouchPending")               \* path.touch(exist_ok=False)
+    /\ IF fs.pending[m]
+       THEN UNCHANGED fs /\ Finish(p, "TouchPending", "pending")     \* PendingTransactionError
+       ELSE /\ fs' = [fs EXCEPT !.pending[m] = TRUE] /\ UNCHANGED vol
+            /\ Step(p, "TouchPending",
+                    IF fs.mfile[m].st # "absent" THEN "MkMetaDir"              \* model file exists: store_model returns
+                    ELSE IF fs.hdir[DataOf[m]] THEN "ListHashDir" ELSE "MkHashDir")
+\* -- hash directory exists
+ListHashDir == \E p \in Proc : LET d == DataOf[cur[p].m] IN
+    /\ Running(p, "Store", "ListHashDir")                \* next(h_dir.iterdir(), None)   (before C16-F1: next(h_dir.iterdir()))
     /\ UNCHANGED fs
-    /\ IF fs.index[DataOf[cur.m]] = 0
-       THEN Finish("ListHashDir", "error:StopIteration")
-       ELSE vol' = [vol EXCEPT !.n = fs.index[DataOf[cur.m]]] /\ Step("ListHashDir", "ReadDatainfo")
-ReadDatainfo ==
-    /\ Running("Store", "ReadDatainfo")               \* DataInfo.read_json(dipath); equal column info => re-use the path
+    /\ IF fs.index[d] = 0
+       THEN IF "IndexFirst" \in Legacy THEN Finish(p, "ListHashDir", "error:StopIteration")
+            ELSE UNCHANGED vol /\ Step(p, "ListHashDir", "MkHashDir")     \* trace of an interrupted store: a miss
+       ELSE Vol(p, "n", fs.index[d]) /\ Step(p, "ListHashDir", "ReadDatainfo")
+ReadDatainfo == \E p \in Proc :
+    /\ Running(p, "Store", "ReadDatainfo")               \* DataInfo.read_json(dipath); equal column info => re-use the path
     /\ UNCHANGED fs
-    /\ IF fs.dinfo[vol.n] = "absent" THEN Finish("ReadDatainfo", "error:FileNotFoundError")
-       ELSE IF fs.dinfo[vol.n] # "ok" THEN Finish("ReadDatainfo", "error:JSONDecodeError")
-       ELSE UNCHANGED vol /\ Step("ReadDatainfo", "MkModelDir")
+    /\ IF fs.dinfo[vol[p].n] = "absent" THEN Finish(p, "ReadDatainfo", "error:FileNotFoundError")
+       ELSE IF fs.dinfo[vol[p].n] # "ok" THEN Finish(p, "ReadDatainfo", "error:JSONDecodeError")
+       ELSE UNCHANGED vol /\ Step(p, "ReadDatainfo", "MkModelDir")
 \* -- new dataset
-MkHashDir == /\ Running("Store", "MkHashDir")          \* h_dir.mkdir(parents=True)
-             /\ fs' = [fs EXCEPT !.hdir[DataOf[cur.m]] = TRUE] /\ UNCHANGED vol
-             /\ Step("MkHashDir", "ScanDatasetNumbers")
+MkHashDir == \E p \in Proc :
+    /\ Running(p, "Store", "MkHashDir")          \* h_dir.mkdir(parents=True, exist_ok=True)
+    /\ fs' = [fs EXCEPT !.hdir[DataOf[cur[p].m]] = TRUE] /\ UNCHANGED vol /\ Step(p, "MkHashDir", "ScanDatasetNumbers")
 Highest == LET used == {i \in 1..MaxN : fs.csv[i] # "absent"} IN
            IF used = {} THEN 0 ELSE CHOOSE i \in used : \A j \in used : j <= i
-ScanDatasetNumbers == /\ Running("Store", "ScanDatasetNumbers")   \* datasets_path.iterdir(): highest data<N>.csv
-                      /\ Highest < MaxN
-                      /\ UNCHANGED fs /\ vol' = [vol EXCEPT !.n = Highest + 1]
-                      /\ Step("ScanDatasetNumbers", IF "IndexLast" \in Fix THEN "OpenCsv" ELSE "TouchIndex")
-TouchIndex == /\ Running("Store", "TouchIndex")        \* index_path.touch()
-              /\ fs' = [fs EXCEPT !.index[DataOf[cur.m]] = vol.n] /\ UNCHANGED vol
-              /\ Step("TouchIndex", IF "IndexLast" \in Fix THEN "MkModelDir" ELSE "OpenCsv")
-OpenCsv == /\ Running("Store", "OpenCsv")              \* write_csv(..., force=True): open 'w' truncates
-           /\ fs' = [fs EXCEPT !.csv[vol.n] = "empty"] /\ vol' = [vol EXCEPT !.openf = "csv"]
-           /\ Step("OpenCsv", "CloseCsv")
-CloseCsv == /\ Running("Store", "CloseCsv")
-            /\ fs' = [fs EXCEPT !.csv[vol.n] = DataOf[cur.m]] /\ vol' = [vol EXCEPT !.openf = "none"]
-            /\ Step("CloseCsv", "OpenDatainfo")
-OpenDatainfo == /\ Running("Store", "OpenDatainfo")    \* "write datainfo last"
-                /\ fs' = [fs EXCEPT !.dinfo[vol.n] = "empty"] /\ vol' = [vol EXCEPT !.openf = "dinfo"]
-                /\ Step("OpenDatainfo", "CloseDatainfo")
-CloseDatainfo == /\ Running("Store", "CloseDatainfo")
-                 /\ fs' = [fs EXCEPT !.dinfo[vol.n] = "ok"] /\ vol' = [vol EXCEPT !.openf = "none"]
-                 /\ Step("CloseDatainfo", IF "IndexLast" \in Fix THEN "TouchIndex" ELSE "MkModelDir")
+ScanDatasetNumbers == \E p \in Proc :
+    /\ Running(p, "Store", "ScanDatasetNumbers")   \* datasets_path.iterdir(): highest data<N>.csv
+    /\ Highest < MaxN
+    /\ UNCHANGED fs /\ Vol(p, "n", Highest + 1)
+    /\ Step(p, "ScanDatasetNumbers", IF "IndexFirst" \in Legacy THEN "TouchIndex" ELSE "OpenCsv")
+TouchIndex == \E p \in Proc :
+    /\ Running(p, "Store", "TouchIndex")        \* index_path.touch(): LAST, after csv and datainfo (before C16-F1: first)
+    /\ fs' = [fs EXCEPT !.index[DataOf[cur[p].m]] = vol[p].n] /\ UNCHANGED vol
+    /\ Step(p, "TouchIndex", IF "IndexFirst" \in Legacy THEN "OpenCsv" ELSE "MkModelDir")
+OpenCsv == \E p \in Proc :
+    /\ Running(p, "Store", "OpenCsv")              \* write_csv(..., force=True): open 'w' truncates
+    /\ fs' = [fs EXCEPT !.csv[vol[p].n] = "empty"] /\ Vol(p, "openf", "csv") /\ Step(p, "OpenCsv", "CloseCsv")
+CloseCsv == \E p \in Proc :
+    /\ Running(p, "Store", "CloseCsv")
+    /\ fs' = [fs EXCEPT !.csv[vol[p].n] = DataOf[cur[p].m]] /\ Vol(p, "openf", "none") /\ Step(p, "CloseCsv", "OpenDatainfo")
+OpenDatainfo == \E p \in Proc :
+    /\ Running(p, "Store", "OpenDatainfo")    \* "write datainfo last" (of the two data files)
+    /\ fs' = [fs EXCEPT !.dinfo[vol[p].n] = "empty"] /\ Vol(p, "openf", "dinfo") /\ Step(p, "OpenDatainfo", "CloseDatainfo")
+CloseDatainfo == \E p \in Proc :
+    /\ Running(p, "Store", "CloseDatainfo")
+    /\ fs' = [fs EXCEPT !.dinfo[vol[p].n] = "ok"] /\ Vol(p, "openf", "none")
+    /\ Step(p, "CloseDatainfo", IF "IndexFirst" \in Legacy THEN "MkModelDir" ELSE "TouchIndex")
 \* -- the model file
-MkModelDir == /\ Running("Store", "MkModelDir") /\ UNCHANGED <<fs, vol>> /\ Step("MkModelDir", "OpenModel")
-OpenModel == /\ Running("Store", "OpenModel")
-             /\ fs' = [fs EXCEPT !.mfile[cur.m] = [st |-> "empty", n |-> vol.n]]
-             /\ vol' = [vol EXCEPT !.openf = "model"]
-             /\ Step("OpenModel", "CloseModel")
-CloseModel == /\ Running("Store", "CloseModel")
-              /\ fs' = [fs EXCEPT !.mfile[cur.m].st = "ok"] /\ vol' = [vol EXCEPT !.openf = "none"]
-              /\ Step("CloseModel", "MkMetaDir")
+MkModelDir == \E p \in Proc : Running(p, "Store", "MkModelDir") /\ UNCHANGED <<fs, vol>> /\ Step(p, "MkModelDir", "OpenModel")
+OpenModel == \E p \in Proc :
+    /\ Running(p, "Store", "OpenModel")
+    /\ fs' = [fs EXCEPT !.mfile[cur[p].m] = [st |-> "empty", n |-> vol[p].n]]
+    /\ Vol(p, "openf", "model") /\ Step(p, "OpenModel", "CloseModel")
+CloseModel == \E p \in Proc :
+    /\ Running(p, "Store", "CloseModel")
+    /\ fs' = [fs EXCEPT !.mfile[cur[p].m].st = "ok"] /\ Vol(p, "openf", "none") /\ Step(p, "CloseModel", "MkMetaDir")
 \* -- store_modelfit_results
-MkMetaDir == /\ Running("Store", "MkMetaDir") /\ UNCHANGED <<fs, vol>> /\ Step("MkMetaDir", "OpenResults")
-OpenResults == /\ Running("Store", "OpenResults")
-               /\ fs' = [fs EXCEPT !.rfile[cur.m] = "empty"] /\ vol' = [vol EXCEPT !.openf = "results"]
-               /\ Step("OpenResults", "CloseResults")
-CloseResults == /\ Running("Store", "CloseResults")
-                /\ fs' = [fs EXCEPT !.rfile[cur.m] = "ok"] /\ vol' = [vol EXCEPT !.openf = "none"]
-                /\ Step("CloseResults", "UnlinkPending")
+MkMetaDir == \E p \in Proc : Running(p, "Store", "MkMetaDir") /\ UNCHANGED <<fs, vol>> /\ Step(p, "MkMetaDir", "OpenResults")
+OpenResults == \E p \in Proc :
+    /\ Running(p, "Store", "OpenResults")
+    /\ fs' = [fs EXCEPT !.rfile[cur[p].m] = "empty"] /\ Vol(p, "openf", "results") /\ Step(p, "OpenResults", "CloseResults")
+CloseResults == \E p \in Proc :
+    /\ Running(p, "Store", "CloseResults")
+    /\ fs' = [fs EXCEPT !.rfile[cur[p].m] = "ok"] /\ Vol(p, "openf", "none") /\ Step(p, "CloseResults", "UnlinkPending")
 \* -- commit
-UnlinkPending == /\ Running("Store", "UnlinkPending")
-                 /\ fs' = [fs EXCEPT !.pending[cur.m] = FALSE] /\ UNCHANGED vol
-                 /\ Step("UnlinkPending", "Unlock")
-Unlock == /\ Running("Store", "Unlock") /\ UNCHANGED fs /\ vol' = [vol EXCEPT !.held = "none"]
-          /\ Step("Unlock", "SymlinkIfAbsent")
-\* -- store_key: only if models/<name> does not exist yet (an existing name is NOT re-pointed)
-SymlinkIfAbsent == /\ Running("Store", "SymlinkIfAbsent")
-                   /\ fs' = IF fs.link[cur.n] = "none" THEN [fs EXCEPT !.link[cur.n] = cur.m] ELSE fs
-                   /\ UNCHANGED vol /\ Step("SymlinkIfAbsent", "AnnTouchLock")
-\* -- store_annotation: read all lines, truncate, write all lines
-AnnTouchLock == /\ Running("Store", "AnnTouchLock") /\ UNCHANGED <<fs, vol>> /\ Step("AnnTouchLock", "AnnLockEx")
-AnnLockEx == /\ Running("Store", "AnnLockEx") /\ UNCHANGED fs /\ vol' = [vol EXCEPT !.held = "ann"]
-             /\ Step("AnnLockEx", "AnnReadAll")
-AnnReadAll == /\ Running("Store", "AnnReadAll") /\ UNCHANGED fs
-              /\ vol' = [vol EXCEPT !.annnew = [fs.ann EXCEPT ![cur.n] = cur.d]]
-              /\ Step("AnnReadAll", "AnnTruncate")
-AnnTruncate == /\ Running("Store", "AnnTruncate")      \* open(path, 'w')   (repaired: open(temporary file, 'w'))
-               /\ IF "AtomicAnn" \in Fix THEN UNCHANGED <<fs, vol>>
-                  ELSE fs' = [fs EXCEPT !.ann = [n \in Names |-> "none"]] /\ vol' = [vol EXCEPT !.openf = "ann"]
-               /\ Step("AnnTruncate", "AnnWrite")
-AnnWrite == /\ Running("Store", "AnnWrite")            \* writelines + close   (repaired: + os.replace)
-            /\ fs' = [fs EXCEPT !.ann = vol.annnew]
-            /\ Finish("AnnWrite", "ok")
+UnlinkPending == \E p \in Proc :
+    /\ Running(p, "Store", "UnlinkPending")
+    /\ fs' = [fs EXCEPT !.pending[cur[p].m] = FALSE] /\ UNCHANGED vol /\ Step(p, "UnlinkPending", "Unlock")
+Unlock == \E p \in Proc :
+    /\ Running(p, "Store", "Unlock") /\ UNCHANGED fs /\ Vol(p, "held", "none") /\ Step(p, "Unlock", "StatLink")
+\* -- store_key: `if not from_path.exists(): ... symlink_to(...)`: an existing name is NOT re-pointed; no lock is held
+StatLink == \E p \in Proc :
+    /\ Running(p, "Store", "StatLink") /\ UNCHANGED fs /\ Vol(p, "absent", fs.link[cur[p].n] = "none")
+    /\ Step(p, "StatLink", IF fs.link[cur[p].n] = "none" THEN "Symlink" ELSE "AnnTouchLock")
+Symlink == \E p \in Proc :
+    /\ Running(p, "Store", "Symlink")
+    /\ IF fs.link[cur[p].n] = "none"
+       THEN fs' = [fs EXCEPT !.link[cur[p].n] = cur[p].m] /\ UNCHANGED vol /\ Step(p, "Symlink", "AnnTouchLock")
+       ELSE UNCHANGED fs /\ Finish(p, "Symlink", "error:FileExistsError")     \* another process created it in between
+\* -- store_annotation: read all lines, write all lines to annotations.tmp, rename over annotations
+AnnTouchLock == \E p \in Proc : Running(p, "Store", "AnnTouchLock") /\ UNCHANGED <<fs, vol>> /\ Step(p, "AnnTouchLock", "AnnLockEx")
+AnnLockEx == \E p \in Proc :
+    /\ Running(p, "Store", "AnnLockEx") /\ NoOtherHolds(p, {"ann"})
+    /\ UNCHANGED fs /\ Vol(p, "held", "ann") /\ Step(p, "AnnLockEx", "AnnReadAll")
+AnnReadAll == \E p \in Proc :
+    /\ Running(p, "Store", "AnnReadAll") /\ UNCHANGED fs
+    /\ Vol(p, "annnew", [fs.ann EXCEPT ![cur[p].n] = cur[p].d])
+    /\ Step(p, "AnnReadAll", IF "InPlaceAnn" \in Legacy THEN "AnnTruncate" ELSE "AnnOpenTmp")
+AnnOpenTmp == \E p \in Proc :
+    /\ Running(p, "Store", "AnnOpenTmp") /\ UNCHANGED fs /\ Vol(p, "openf", "tmp") /\ Step(p, "AnnOpenTmp", "AnnCloseTmp")
+AnnCloseTmp == \E p \in Proc :
+    /\ Running(p, "Store", "AnnCloseTmp") /\ UNCHANGED fs /\ Vol(p, "openf", "none") /\ Step(p, "AnnCloseTmp", "AnnRename")
+AnnRename == \E p \in Proc :
+    /\ Running(p, "Store", "AnnRename")            \* tmp_path.replace(path)
+    /\ fs' = [fs EXCEPT !.ann = vol[p].annnew] /\ Finish(p, "AnnRename", "ok")
+\* -- before repair C16-F4: open(path, 'w') truncates, then writelines
+AnnTruncate == \E p \in Proc :
+    /\ Running(p, "Store", "AnnTruncate")
+    /\ fs' = [fs EXCEPT !.ann = [n \in Names |-> "none"]] /\ Vol(p, "openf", "ann") /\ Step(p, "AnnTruncate", "AnnWrite")
+AnnWrite == \E p \in Proc :
+    /\ Running(p, "Store", "AnnWrite")
+    /\ fs' = [fs EXCEPT !.ann = vol[p].annnew] /\ Finish(p, "AnnWrite", "ok")
 
 -----------------------------------------------------------------------------
 \* Retrieve = database.retrieve_model_entry(key): snapshot (a reader creates directories, too)
 
-RMkKeyDirs == /\ Running("Retrieve", "RMkKeyDirs")
-              /\ fs' = [fs EXCEPT !.keydir[cur.m] = TRUE] /\ UNCHANGED vol /\ Step("RMkKeyDirs", "RTouchLock")
-RTouchLock == /\ Running("Retrieve", "RTouchLock") /\ UNCHANGED <<fs, vol>> /\ Step("RTouchLock", "LockSh")
-LockSh == /\ Running("Retrieve", "LockSh") /\ UNCHANGED fs /\ vol' = [vol EXCEPT !.held = "sh"]
-          /\ Step("LockSh", "ReadEntry")
-ReadEntry == /\ Running("Retrieve", "ReadEntry")   \* PENDING? model file? parse model, datainfo, csv (twice), results.json
-             /\ UNCHANGED fs /\ Finish("ReadEntry", WouldRetrieve(cur.m).out)
+RMkKeyDirs == \E p \in Proc :
+    /\ Running(p, "Retrieve", "RMkKeyDirs")
+    /\ fs' = [fs EXCEPT !.keydir[cur[p].m] = TRUE] /\ UNCHANGED vol /\ Step(p, "RMkKeyDirs", "RTouchLock")
+RTouchLock == \E p \in Proc : Running(p, "Retrieve", "RTouchLock") /\ UNCHANGED <<fs, vol>> /\ Step(p, "RTouchLock", "LockSh")
+LockSh == \E p \in Proc :
+    /\ Running(p, "Retrieve", "LockSh") /\ NoOtherHolds(p, {"ex"})
+    /\ UNCHANGED fs /\ Vol(p, "held", "sh") /\ Step(p, "LockSh", "ReadEntry")
+ReadEntry == \E p \in Proc :
+    /\ Running(p, "Retrieve", "ReadEntry")   \* PENDING? model file? parse model, datainfo, csv (twice), results.json
+    /\ UNCHANGED fs /\ Finish(p, "ReadEntry", WouldRetrieve(cur[p].m).out)
 
 -----------------------------------------------------------------------------
 \* Log = Context.log_message -> store_message: append one CSV line
 
-LogTouchLock == /\ Running("Log", "LogTouchLock") /\ UNCHANGED <<fs, vol>> /\ Step("LogTouchLock", "LogLockEx")
-LogLockEx == /\ Running("Log", "LogLockEx") /\ UNCHANGED fs /\ vol' = [vol EXCEPT !.held = "log"]
-             /\ Step("LogLockEx", "LogOpenAppend")
-LogOpenAppend == /\ Running("Log", "LogOpenAppend") /\ UNCHANGED fs /\ vol' = [vol EXCEPT !.openf = "log"]
-                 /\ Step("LogOpenAppend", "LogWrite")
-LogWrite == /\ Running("Log", "LogWrite")
-            /\ fs' = [fs EXCEPT !.loglines = Append(@, cur.g)]
-            /\ Finish("LogWrite", "ok")
+LogTouchLock == \E p \in Proc : Running(p, "Log", "LogTouchLock") /\ UNCHANGED <<fs, vol>> /\ Step(p, "LogTouchLock", "LogLockEx")
+LogLockEx == \E p \in Proc :
+    /\ Running(p, "Log", "LogLockEx") /\ NoOtherHolds(p, {"log"})
+    /\ UNCHANGED fs /\ Vol(p, "held", "log") /\ Step(p, "LogLockEx", "LogOpenAppend")
+LogOpenAppend == \E p \in Proc :
+    /\ Running(p, "Log", "LogOpenAppend") /\ UNCHANGED fs /\ Vol(p, "openf", "log") /\ Step(p, "LogOpenAppend", "LogWrite")
+LogWrite == \E p \in Proc :
+    /\ Running(p, "Log", "LogWrite")
+    /\ fs' = [fs EXCEPT !.loglines = Append(@, cur[p].g)] /\ Finish(p, "LogWrite", "ok")
 
 -----------------------------------------------------------------------------
 \* workload, crash, restart
 
 First(o) == CASE o.op = "Store" -> "MkKeyDirs" [] o.op = "Retrieve" -> "RMkKeyDirs" [] o.op = "Log" -> "LogTouchLock"
-Begin == /\ proc = "up" /\ cur = NoOp /\ nops < MaxOps
-         /\ \E o \in Ops : cur' = o /\ pc' = First(o)
-         /\ nops' = nops + 1 /\ steps' = <<>>
-         /\ UNCHANGED <<fs, proc, vol, S, viol, hist, ncrash>>
+Begin == \E p \in Proc :
+    /\ proc[p] = "up" /\ cur[p] = NoOp /\ nops < MaxOps
+    /\ \E o \in Ops : cur' = [cur EXCEPT ![p] = o] /\ pc' = [pc EXCEPT ![p] = First(o)]
+    /\ nops' = nops + 1 /\ steps' = [steps EXCEPT ![p] = <<>>]
+    /\ UNCHANGED <<fs, proc, vol, S, viol, hist, ncrash>>
 
 \* fate of the file that was open for writing when the process died
 Fates == {"empty", "torn", "ok"}
-AfterDeath(f) ==
-    CASE vol.openf = "none"    -> fs
-      [] vol.openf = "loghdr"  -> [fs EXCEPT !.loghdr = IF f = "ok" THEN "ok" ELSE "empty"]
-      [] vol.openf = "csv"     -> [fs EXCEPT !.csv[vol.n] = IF f = "ok" THEN DataOf[cur.m] ELSE f]
-      [] vol.openf = "dinfo"   -> [fs EXCEPT !.dinfo[vol.n] = f]
-      [] vol.openf = "model"   -> [fs EXCEPT !.mfile[cur.m].st = f]
-      [] vol.openf = "results" -> [fs EXCEPT !.rfile[cur.m] = f]
-      [] vol.openf = "ann"     -> [fs EXCEPT !.ann = IF f = "ok" THEN vol.annnew
-                                                     ELSE IF f = "empty" THEN [n \in Names |-> "none"]
-                                                     ELSE [n \in Names |-> IF n = cur.n THEN "none" ELSE vol.annnew[n]]]
-      [] vol.openf = "log"     -> [fs EXCEPT !.loglines = IF f = "ok" THEN Append(@, cur.g)
-                                                         ELSE IF f = "torn" THEN Append(@, "TORN") ELSE @]
-Crash ==
-    /\ proc = "up" /\ cur # NoOp /\ ncrash < MaxCrashes
-    /\ \E f \in (IF vol.openf = "none" THEN {"ok"} ELSE Fates) : fs' = AfterDeath(f)
-    /\ proc' = "down" /\ cur' = NoOp /\ pc' = "idle" /\ vol' = Vol0 /\ steps' = <<>>
+AfterDeath(p, f) == LET v == vol[p] o == cur[p] IN
+    CASE v.openf \in {"none", "tmp"} -> fs         \* a torn temporary file is never looked at: the next writer truncates it
+      [] v.openf = "loghdr"  -> [fs EXCEPT !.loghdr = IF f = "ok" THEN "ok" ELSE "empty"]
+      [] v.openf = "csv"     -> [fs EXCEPT !.csv[v.n] = IF f = "ok" THEN DataOf[o.m] ELSE f]
+      [] v.openf = "dinfo"   -> [fs EXCEPT !.dinfo[v.n] = f]
+      [] v.openf = "model"   -> [fs EXCEPT !.mfile[o.m].st = f]
+      [] v.openf = "results" -> [fs EXCEPT !.rfile[o.m] = f]
+      [] v.openf = "ann"     -> [fs EXCEPT !.ann = IF f = "ok" THEN v.annnew
+                                                   ELSE IF f = "empty" THEN [n \in Names |-> "none"]
+                                                   ELSE [n \in Names |-> IF n = o.n THEN "none" ELSE v.annnew[n]]]
+      [] v.openf = "log"     -> [fs EXCEPT !.loglines = IF f = "ok" THEN Append(@, o.g)
+                                                       ELSE IF f = "torn" THEN Append(@, "TORN") ELSE @]
+Crash == \E p \in Proc :
+    /\ proc[p] = "up" /\ cur[p] # NoOp /\ ncrash < MaxCrashes
+    /\ \E f \in (IF vol[p].openf \in {"none", "tmp"} THEN {"ok"} ELSE Fates) : fs' = AfterDeath(p, f)
+    /\ proc' = [proc EXCEPT ![p] = "down"] /\ cur' = [cur EXCEPT ![p] = NoOp] /\ pc' = [pc EXCEPT ![p] = "idle"]
+    /\ vol' = [vol EXCEPT ![p] = Vol0] /\ steps' = [steps EXCEPT ![p] = <<>>]
     /\ ncrash' = ncrash + 1 /\ UNCHANGED <<nops, viol>>
-    /\ hist' = IF TrackHist THEN Append(hist, [op |-> cur, out |-> "crash", steps |-> steps, before |-> pc]) ELSE hist
-    /\ S' = CASE cur.op = "Store" -> StoreUpdate(S, cur.m, cur.n, cur.d, "crash")
-              [] cur.op = "Log" -> LogUpdate(S, cur.g, "crash")
+    /\ hist' = IF TrackHist THEN Append(hist, [op |-> cur[p], out |-> "crash", steps |-> steps[p], before |-> pc[p]]) ELSE hist
+    /\ S' = CASE cur[p].op = "Store" -> StoreUpdate(S, cur[p].m, cur[p].n, cur[p].d, "crash")
+              [] cur[p].op = "Log" -> LogUpdate(S, cur[p].g, "crash")
               [] OTHER -> S
-Restart == /\ proc = "down"
-           /\ proc' = "up" /\ cur' = OpenOp /\ pc' = "InitDirs" /\ steps' = <<>>
-           /\ UNCHANGED <<fs, vol, S, viol, hist, nops, ncrash>>
+Restart == \E p \in Proc :
+    /\ proc[p] = "down"
+    /\ proc' = [proc EXCEPT ![p] = "up"] /\ cur' = [cur EXCEPT ![p] = OpenOp] /\ pc' = [pc EXCEPT ![p] = "InitDirs"]
+    /\ steps' = [steps EXCEPT ![p] = <<>>]
+    /\ UNCHANGED <<fs, vol, S, viol, hist, nops, ncrash>>
 
+OpenSteps == InitDirs \/ OpenLogTmp \/ CloseLogTmp \/ RenameLog \/ OpenLogHeader \/ WriteLogHeader \/ InitCommon
 StoreSteps == \/ MkKeyDirs \/ TouchLock \/ LockEx \/ TouchPending \/ ListHashDir \/ ReadDatainfo \/ MkHashDir
               \/ ScanDatasetNumbers \/ TouchIndex \/ OpenCsv \/ CloseCsv \/ OpenDatainfo \/ CloseDatainfo
               \/ MkModelDir \/ OpenModel \/ CloseModel \/ MkMetaDir \/ OpenResults \/ CloseResults
-              \/ UnlinkPending \/ Unlock \/ SymlinkIfAbsent
-              \/ AnnTouchLock \/ AnnLockEx \/ AnnReadAll \/ AnnTruncate \/ AnnWrite
-Next == \/ InitDirs \/ OpenLogHeader \/ WriteLogHeader \/ InitCommon
+              \/ UnlinkPending \/ Unlock \/ StatLink \/ Symlink
+              \/ AnnTouchLock \/ AnnLockEx \/ AnnReadAll \/ AnnOpenTmp \/ AnnCloseTmp \/ AnnRename \/ AnnTruncate \/ AnnWrite
+Next == \/ OpenSteps
         \/ StoreSteps
         \/ RMkKeyDirs \/ RTouchLock \/ LockSh \/ ReadEntry
         \/ LogTouchLock \/ LogLockEx \/ LogOpenAppend \/ LogWrite
@@ -310,10 +368,11 @@ Next == \/ InitDirs \/ OpenLogHeader \/ WriteLogHeader \/ InitCommon
 Spec == Init /\ [][Next]_vars
 
 -----------------------------------------------------------------------------
-\* invariants that the protocol as written DOES satisfy
+\* invariants of the protocol itself
 
-Quiescent == proc = "up" /\ cur = NoOp
-TypeOK == /\ proc \in {"up", "down"} /\ nops \in 0..MaxOps /\ ncrash \in 0..MaxCrashes
+Quiescent == \A p \in Proc : proc[p] = "up" /\ cur[p] = NoOp
+TypeOK == /\ \A p \in Proc : proc[p] \in {"up", "down"}
+          /\ nops \in 0..MaxOps /\ ncrash \in 0..MaxCrashes
           /\ \A m \in Model : fs.mfile[m].st \in {"absent", "empty", "torn", "ok"} /\ fs.mfile[m].n \in 0..MaxN
           /\ \A i \in 1..MaxN : fs.csv[i] \in {"absent", "empty", "torn"} \cup Data
           /\ \A d \in Data : fs.index[d] \in 0..MaxN
@@ -321,25 +380,32 @@ TypeOK == /\ proc \in {"up", "down"} /\ nops \in 0..MaxOps /\ ncrash \in 0..MaxC
 PendingGuards == \A m \in Model : (fs.mfile[m].st \in {"empty", "torn"} \/ fs.rfile[m] \in {"empty", "torn"}) => fs.pending[m]
 \* "write datainfo last so that we are sure the dataset is there if datainfo is there"
 DatainfoLast == \A i \in 1..MaxN : fs.dinfo[i] # "absent" => fs.csv[i] \in Data
-\* a lock is only held while an operation runs (locks vanish with the process)
-LocksScoped == cur = NoOp => vol.held = "none" /\ vol.openf = "none"
-LogHeaderOK == Quiescent => fs.loghdr = "ok"     \* holds with the repair "LogHeader" only
-\* the log as far as process death without torn append is concerned (a torn last LINE is finding C16-F6)
-InvLogNoTorn == (Quiescent /\ \A i \in 1..Len(fs.loglines) : fs.loglines[i] # "TORN")
-                    => ReadLogVerdict(S, WouldReadLog.out, WouldReadLog.lines) = "ok"
+\* repair C16-F1: an index entry implies a complete dataset and datainfo with that content (fails with "IndexFirst")
+IndexImpliesComplete == \A d \in Data : fs.index[d] # 0 => fs.csv[fs.index[d]] = d /\ fs.dinfo[fs.index[d]] = "ok"
+\* a lock is only held while an operation runs (locks vanish with the process); writers exclude each other
+LocksScoped == \A p \in Proc : cur[p] = NoOp => vol[p].held = "none" /\ vol[p].openf = "none"
+Exclusion == \A p, q \in Proc : p # q =>
+                /\ ~(vol[p].held = "ex" /\ vol[q].held \in {"ex", "sh"})
+                /\ ~(vol[p].held = "ann" /\ vol[q].held = "ann") /\ ~(vol[p].held = "log" /\ vol[q].held = "log")
 \* a store that was never interrupted and whose dataset was never touched by an interrupted store succeeds
+\* (all that holds of (I) before repair C16-F1; implied by InvI afterwards)
 CleanStoreWorks == \A v \in viol : v[1] = "I" => v[4]
+\* repair C16-F5: once a constructor has returned, log.csv has its header
+LogHeaderOK == Quiescent => fs.loghdr = "ok"
 
 -----------------------------------------------------------------------------
-\* the property layer over the design: what a reader would obtain is admitted (checked separately, ModelDBProps.cfg)
+\* the property layer over the design: what a reader would obtain is admitted
 
 LetterA(m) == RetrieveVerdict(S, m, WouldRetrieve(m).out, WouldRetrieve(m).c)
 InvA == Quiescent => \A m \in Model \ S.committed : LetterA(m) \in {"ok", "U"}          \* no partial visibility
 InvD == Quiescent => \A m \in S.committed : LetterA(m) = "ok"                             \* durability + fidelity
 InvDOther == Quiescent => \A m \in S.committed \ S.interrupted : LetterA(m) = "ok"          \* ... of keys never interrupted themselves
-InvIOther == \A v \in viol : v[1] = "I" => v[3] = "error:StopIteration"                      \* a second kind of (I) counterexample
 InvI == \A v \in viol : v[1] # "I"                                                        \* isolation of failures
+InvIOther == \A v \in viol : v[1] = "I" => v[3] = "error:StopIteration"                      \* a second kind of (I) counterexample
 InvLog == Quiescent => ReadLogVerdict(S, WouldReadLog.out, WouldReadLog.lines) = "ok"     \* log append-only, verbatim
+\* the log as far as process death without torn append is concerned (a torn last LINE is finding C16-F6)
+InvLogNoTorn == (Quiescent /\ \A i \in 1..Len(fs.loglines) : fs.loglines[i] # "TORN")
+                    => ReadLogVerdict(S, WouldReadLog.out, WouldReadLog.lines) = "ok"
 InvAnn == Quiescent => \A n \in Names : AnnVerdict(S, n, WouldReadAnn(n).out, WouldReadAnn(n).d) \in {"ok", "U"}
 InvName == Quiescent => \A n \in Names :
               /\ ResolveVerdict(S, n, WouldResolve(n).out, WouldResolve(n).key) \in {"ok", "U"}
@@ -355,7 +421,10 @@ Lg(g) == [op |-> "Log", g |-> g]
 OpsQuick == {St("m1", "na", "dA"), St("m2", "nb", "dB"), St("m2", "na", "dB"), St("m3", "nc", "dC"),
              St("m1", "nb", "dB"), Lg("gA"), Rt("m1")}
 OpsFull == OpsQuick \cup {St("m3", "na", "dC"), Lg("gB"), Rt("m2"), Rt("m3")}
+\* two processes: stores that share a dataset, a key or a name, one reader, one log message
+OpsTwo == {St("m1", "na", "dA"), St("m2", "nb", "dB"), St("m2", "na", "dB"), St("m3", "nc", "dC"), Lg("gA"), Rt("m1")}
 NamesAll == {"na", "nb", "nc"}
+LegacyAll == {"IndexFirst", "InPlaceAnn", "InPlaceLogHeader"}
 
 Letters == [A |-> InvA, D |-> InvD, I |-> InvI, Log |-> InvLog, Ann |-> InvAnn, Name |-> InvName]
 EmitCase == (TrackHist /\ Quiescent /\ nops >= 1) =>
